@@ -50,7 +50,7 @@ PROPERTIES["C12"] = dict(
     ],
 )
 
-PIPE_FILES = ["pipeline/zz_verif_pipe.go", "pipeline/zz_verif_p08.go", "pipeline/zz_verif_p01.go", "pipeline/zz_verif_p07.go", "config::config/zz_verif_export.go", "annotation::annotation/zz_verif_export.go", "assertion/global::global/zz_verif_export.go"]
+PIPE_FILES = ["pipeline/zz_verif_pipe.go", "pipeline/zz_verif_p08.go", "pipeline/zz_verif_p01.go", "pipeline/zz_verif_p01b.go", "pipeline/zz_verif_p07.go", "config::config/zz_verif_export.go", "annotation::annotation/zz_verif_export.go", "assertion/global::global/zz_verif_export.go"]
 INFER_FILES = ["inference/zz_verif_c05.go", "inference/zz_verif_c05l2.go", "inference/zz_verif_c06.go", "inference/zz_verif_c04.go", "inference/zz_verif_c15.go", "inference/zz_verif_c15m.go", "inference/zz_verif_c08.go", "inference/zz_verif_registry.go",
                "annotation::annotation/zz_verif_export.go"]
 
@@ -443,3 +443,18 @@ PROPERTIES["C13"]["explanation"] += (" Pretty printing: the REAL PrettyPrintErro
 PROPERTIES["C13"]["bounds"]["quick"] += "; pretty printing: 720 message shapes (4 first steps x 5 code fragments, optional second step, 0-2 quoted positions)"
 PROPERTIES["C13"]["bounds"]["thorough"] += "; pretty printing: 5544 message shapes (11 code fragments)"
 PROPERTIES["C13"]["outside"] = [o for o in PROPERTIES["C13"]["outside"] if "retty" not in o] + ["pretty printing of messages outside the enumerated shapes (arbitrary code text)"]
+
+PROPERTIES["C01"]["runs"] += [
+    dict(pkg="accumulation", files=PIPE_FILES, entry="Harness_P01L", quick=dict(params=dict(SIMPLE=5, COMPOUND=2, ORDERS=2)), thorough=dict(params=dict(SIMPLE=9, COMPOUND=4, ORDERS=3)),
+         args=dict(sample_every=197, max_samples=20)),
+]
+PROPERTIES["C01"]["explanation"] += (" P01L adds one structured statement before or after a base statement (thorough: also two structured statements): a counted loop with an opaque bound, condition loops on x (a body that does not change the "
+    "condition diverges), tagless and tagged switches on x == nil with two arms, and calls of pointer-receiver methods that dereference or check their receiver.")
+PROPERTIES["C01"]["bounds"]["quick"] += "; P01L: 966 programs (one structured statement - 3 loop forms, 2 switch forms, 4 receiver forms over 5 straight-line bodies - next to one of 7 base statements)"
+PROPERTIES["C01"]["bounds"]["thorough"] += "; P01L: all 44583 programs over 9 straight-line bodies incl. two structured statements"
+PROPERTIES["C01"]["outside"] = [o.replace("loops, switches, methods, struct fields", "nested loops, loops around compound statements, struct fields") for o in PROPERTIES["C01"]["outside"]]
+PROPERTIES["C02"]["runs"] += [
+    dict(pkg="accumulation", files=PIPE_FILES, entry="Harness_P01L", name="_guards", quick=dict(params=dict(SIMPLE=5, COMPOUND=2, ORDERS=2)), thorough=dict(params=dict(SIMPLE=9, COMPOUND=4, ORDERS=2)),
+         args=dict(sample_every=197, max_samples=12)),
+]
+PROPERTIES["C02"]["bounds"]["quick"] += " and the 966 P01L programs (loops, switch-on-nil, receivers)"
